@@ -100,6 +100,19 @@ func init() {
 		Models:      []string{"as C02"},
 	})
 	reg(&PropSpec{
+		ID: "C04", Prefix: "vh_C04_", MaxSteps: 2500000, MaxDepth: 300, BoundIsViol: true,
+		Quick:    Tier{Params: map[string]int{"kwpos": 2, "spellings": 2}},
+		Thorough: Tier{Params: map[string]int{"kwpos": 12, "spellings": 3}},
+		Bounds: []string{
+			"hostile worlds: definitions A,B (root) and C (sub-directory document), each holding at a keyword position nothing or a $ref to A, B, C (2/3 spellings), to a missing pointer, a missing document, or a string / number / array / boolean target; A carries no id, an absolute id, a relative-file id, a relative-directory id or a fragment id; optionally a parameter, response or path item that refers to itself",
+			"entry points: ExpandSpec (SkipSchemas, ContinueOnError symbolic), ExpandSchema, ExpandSchemaWithBasePath, ExpandParameter(WithRoot), ExpandResponse(WithRoot)",
+			"work bound: 2.5e6 interpreted SSA instructions and call depth 300 per path (a terminating expansion of these worlds needs < 6e5); exceeding it is reported as possible non-termination and confirmed natively under an 8 s watchdog",
+		},
+		Outside:     []string{"larger graphs, the 'random large graphs' of the property text (no sampling in this technique)", "stack exhaustion is observed as call-depth overrun, not as a real stack overflow"},
+		Assumptions: []string{"as C02"},
+		Models:      []string{"as C02"},
+	})
+	reg(&PropSpec{
 		ID: "C11", Prefix: "vh_C11_",
 		Quick:    Tier{Params: map[string]int{"segs": 2, "seg_len": 2}},
 		Thorough: Tier{Params: map[string]int{"segs": 3, "seg_len": 2}},
